@@ -30,7 +30,14 @@ def area_current(ctx, area):
     if area not in _cache:
         crate, mods, excl = AREAS[area][:3]
         skip_types = AREAS[area][3] if len(AREAS[area]) > 3 else ()
-        _cache[area] = nf.area_nf(ctx.ast, crate, mods, excl, skip_types)
+        try:
+            known = set(area_ref(area))
+        except (OSError, ValueError, KeyError):
+            known = None
+        _cache[area] = nf.area_nf(ctx.ast, crate, mods, excl, skip_types, known)
+        note = _cache[area].pop("_inlined_new", None)
+        if note:
+            ctx.notes.append("%s: private functions not in the reviewed reference were inlined into their callers: %s" % (area, ", ".join(note["names"])))
     return _cache[area]
 
 
